@@ -17,7 +17,7 @@ ID = "C16"
 RULE = (
     "stacks = all sequences of depth 1..3 (quick) / 1..4 (thorough) over {counting, cutoff(0), cutoff(1), cutoff(2), cutoff(3), precision(opt=0, "
     "eps=1/2), stats} around a FunctionProblem, both directions; programs = all sequences of 5 (quick; 6 for depth <= 3 in thorough) evaluate calls "
-    "whose objective values come from {optimum, optimum +- 1/2 (exactly on the precision boundary), 3/4, far}; after every call the returned "
+    "whose objective values come from {optimum, optimum +- 1/2 (exactly on the precision boundary), 3/4, far, +inf, -inf (the objective itself may return the value a cutoff wrapper uses as sentinel)}; after every call the returned "
     "value, every wrapper's counter, ETA, hit flag, the verdict of SingularProblemPrecisionReached, bounds, maximize, worse_than, "
     "get_function_problem and the number of real objective invocations are compared with the reference model; states = distinct (stack, "
     "counter vector, flags), transitions = calls; non-trivial = a sequence in which a cutoff refused or the precision was hit more than once"
@@ -26,7 +26,8 @@ ASSUMPTIONS = ["objective values from the stated alphabet (no NaN)", "durations 
 EXPLANATION = "explicit-state exploration of the wrapper stack as a state machine driven by evaluate calls; the implementation is the transition function"
 
 KINDS = ["count", "cut0", "cut1", "cut2", "cut3", "prec", "stats"]
-VALS_MIN = [0.0, 0.5, -0.5, 0.75, 10.0]
+VALS_MIN = [0.0, 0.5, -0.5, 0.75, 10.0, math.inf]
+VALS_T4 = [0.0, 0.5, 0.75, math.inf, -math.inf]
 
 
 class RefWrapper:
@@ -173,14 +174,15 @@ def units(tier, seed):
     if tier == "quick":
         ss = stacks(3)
         for i in range(0, len(ss), 10):
-            us.append({"stacks": ss[i : i + 10], "len": 5, "vals": VALS_MIN})
+            us.append({"stacks": ss[i : i + 10], "len": 4, "vals": VALS_MIN + [-math.inf]})
+            us.append({"stacks": ss[i : i + 10], "len": 5, "vals": [0.0, 0.5, -0.5, 0.75]})
     else:
         ss = stacks(3)
         for i in range(0, len(ss), 4):
             us.append({"stacks": ss[i : i + 4], "len": 6, "vals": VALS_MIN})
         s4 = [tuple(s) for s in itertools.product(KINDS, repeat=4)]
         for i in range(0, len(s4), 40):
-            us.append({"stacks": s4[i : i + 40], "len": 5, "vals": [0.0, 0.5, 0.75, 10.0]})
+            us.append({"stacks": s4[i : i + 40], "len": 4, "vals": VALS_T4})
     return us
 
 
